@@ -11,6 +11,7 @@ mod c11;
 mod deleg;
 mod http;
 mod lifecycle;
+mod fixtures;
 mod delegcli;
 mod c06;
 mod repo;
@@ -32,6 +33,7 @@ fn main() {
         "c20" => c20::run(rest),
         "c19" => c19::run(rest),
         "lifecycle" => lifecycle::run(rest),
+        "fixtures" => fixtures::run(rest),
         "delegcli" => delegcli::run(rest),
         "c10" => editor::run(rest),
         "c17" => editor::run_update(rest),
